@@ -53,3 +53,18 @@ Proof.
 Qed.
 Print Assumptions set_header_list_eq.
 Print Assumptions gen_call_analyze_request_eq.
+
+(* ------------------------------------------------------------------ what a failed analysis leaves behind *)
+(** [gen_call_analyze_request_errst] is the translation of the same Rust function in "error-state mode": the values its mutable
+    fields have at the point where it returns an error.  When the request analysis fails, nothing has changed -- in particular the
+    flag is still unset, so the next call analyses (and fails) again instead of writing a request that was never validated. *)
+Theorem gen_call_analyze_request_errst_unchanged c e :
+  c_analyzed c = false ->
+  analyze (c_req c) (c_writer c) (c_skip c) = Err e ->
+  gen_call_analyze_request_errst (c_analyzed c) (am_added (c_req c)) (c_writer c)
+                                 (lift_info3 (analyze (c_req c) (c_writer c) (c_skip c))) (host_of_call c)
+  = Some (false, am_added (c_req c), c_writer c).
+Proof.
+  intros Ha He. unfold gen_call_analyze_request_errst. rewrite Ha, He. reflexivity.
+Qed.
+Print Assumptions gen_call_analyze_request_errst_unchanged.
